@@ -67,7 +67,7 @@ func expectedNames(decls []nameDecl, uses []nameUse) (want []string, open map[st
 		switch {
 		case !declared:
 			want = append(want, "UnboundVariable "+u.Name+" "+spanKey(u.Span))
-		case u.Origin >= 0 && fd > u.Origin:
+		case u.Origin >= 0 && fd >= u.Origin: // a variable is not in scope inside its own origin
 			want = append(want, "UnboundVariable "+u.Name+" "+spanKey(u.Span))
 			usedEarly[u.Name] = true
 		default:
@@ -138,7 +138,14 @@ func allVarNodes(sc *gen.Script) []*gen.Var {
 func mutateNames(r *rng.R, sc *gen.Script) string {
 	vars := allVarNodes(sc)
 	for attempt := 0; attempt < 8; attempt++ {
-		switch r.Intn(7) {
+		switch r.Intn(8) {
+		case 7: // origin argument referring to the variable being declared
+			if len(sc.Vars) == 0 {
+				continue
+			}
+			d := sc.Vars[r.Intn(len(sc.Vars))]
+			d.Origin = &gen.Call{Name: "meta", Args: []gen.Expr{gen.V(d.Name), gen.S("k")}}
+			return "origin-uses-own-declaration"
 		case 0: // delete a declaration
 			if len(sc.Vars) == 0 {
 				continue
@@ -228,7 +235,7 @@ func hasBoundedOverdraftUnderSendAll(sc *gen.Script) bool {
 
 func runC16(c *fw.Ctx) {
 	cfgs := typedCfgs()
-	n := c.N(30000, 2000000)
+	n := c.N(40000, 2000000)
 	for i := 0; i < n; i++ {
 		id := "typed/" + itoa(i)
 		if !c.Want(i, id) {
